@@ -109,12 +109,16 @@ fn tokens(g: &mut Gen, st: &mut Stats) -> CaseResult {
     })
 }
 
+fn large(g: &mut Gen, st: &mut Stats) -> CaseResult { crate::checks::c01::large_value(g, st, true) }
+
 pub fn subs() -> Vec<Sub> {
     vec![
         Sub { prop: "C07", name: "builtin-values", rule: "values of ~120 registry types: len(v) == to_vec(v).len(), an exactly sized slice suffices, one byte less gives a write error; non-trivial = length >= 2; distinct by (type, bytes)",
               kind: Kind::Random { quick: 1_200_000, thorough: 12_000_000, tape: 1024, f: values } },
         Sub { prop: "C07", name: "big-containers", rule: "containers / strings with 23..65537 elements (count and length head-width crossings)",
               kind: Kind::Random { quick: 1_500, thorough: 3_000, tape: 16, f: big_containers } },
+        Sub { prop: "C07", name: "large", rule: "the large collections of C01 (65535 .. 131072 elements, twelve container / string kinds): len == bytes written",
+              kind: Kind::Random { quick: 300, thorough: 3_000, tape: 64, f: large } },
         Sub { prop: "C07", name: "tokens", rule: "all 26 Token variants with boundary-dense payloads (F16 of arbitrary f32 included: encoding succeeds); distinct by bytes",
               kind: Kind::Random { quick: 750_000, thorough: 5_000_000, tape: 512, f: tokens } },
     ]
